@@ -49,7 +49,7 @@ func MakeNfs(d disk.Disk) *Nfs {
 
 	log := obj.MkLog(d) // runs recovery
 
-	i := readRootInode(super)
+	i := readRootInode(super, log)
 	if i.Kind == 0 { // make a new file system?
 		makeFs(super)
 	}
@@ -143,10 +143,11 @@ func markAlloc(super *super.FsSuper, n common.Bnum, m common.Bnum) {
 	super.Disk.Write(uint64(super.BitmapInodeStart()), blk2)
 }
 
-func readRootInode(super *super.FsSuper) *inode.Inode {
+// Read through the log: transactions recovered by MkLog may not have
+// been installed yet.
+func readRootInode(super *super.FsSuper, log *obj.Log) *inode.Inode {
 	addr := super.Inum2Addr(common.ROOTINUM)
-	blk := super.Disk.Read(uint64(addr.Blkno))
-	buf := buf.MkBufLoad(addr, common.INODESZ*8, blk)
+	buf := log.Load(addr, common.INODESZ*8)
 	i := inode.Decode(buf, common.ROOTINUM)
 	return i
 }
